@@ -68,6 +68,7 @@ int main() {
         int n = std::sscanf(line, "%31s %llu %llu %llu %7s", cmd, &a, &r, &t, extra);
         if (n < 1) { std::puts("bad-op"); continue; }
         if (!std::strcmp(cmd, "new") && n == 2) {
+            std::fflush(stdout);   // if the code under test crashes or hangs, the output is complete up to this sequence
             b->~input_buffer();
             b = new (storage) input_buffer(a != 0);
             std::printf("%s\n", show_state(*b).c_str());
